@@ -220,19 +220,12 @@ def session_close(ctx, v, got, want, rt, bucket, what, scale, factor=1e-2):
     if not session_of(v) or v['xkind'] == 'f32':
         return
     srt = rt * factor
-    _debug_ratio(got, want, srt, srt * scale, bucket)
-    U.check_close(got, want, srt, bucket + ':after-single-precision-session',
-                  what + ' [double-precision request after a request made under config.precision = 32: %s]' % session_of(v), atol=srt * scale)
-
-
-def _debug_ratio(got, want, rtol, atol, bucket):        # TEMPORARY
-    import os
-    if os.environ.get('VERIF_DEBUG_RATIO'):
-        g, w = np.asarray(got), np.asarray(want)
-        if g.shape == w.shape and g.size:
-            tol = rtol * float(np.max(np.abs(w))) + atol
-            with open(os.environ['VERIF_DEBUG_RATIO'], 'a') as f:
-                f.write('%.3e %s\n' % (float(np.max(np.abs(g - w))) / max(tol, 1e-300), bucket))
+    keep = U.APPROACH[0]        # the tighter comparison is a pass / fail check of this history; it is not fed to the search target of the thorough tier
+    try:
+        U.check_close(got, want, srt, bucket + ':after-single-precision-session',
+                      what + ' [double-precision request after a request made under config.precision = 32: %s]' % session_of(v), atol=srt * scale)
+    finally:
+        U.APPROACH[0] = keep
 
 
 def editable(a):
